@@ -26,7 +26,7 @@ from vlib.harness import InstanceResult, jsonable
 PROPERTY = 'C18'
 TECHNIQUE = 'symbolic execution of the real observers from an arbitrary (z3-real) architectural state: state / output / cost / summary snapshots before and after each operation compared by the solver; literal sequences of length 2'
 FUNCTIONS_ENCODED = ['PIT/MPS/SuperNet.export/summary/cost/get_cost/cost_specification setter/_get_single_cost', 'pit|mps|supernet/graph.py convert(export)', 'SuperNetCombiner.get_cost/summary', 'PIT*.get_modified_vars', 'MPS*.get_cost']
-BOUNDS = {'quick': 'PIT: T1(K=2) and D2 (full_cost on/off); MPS: ML per-layer; SuperNet: S(2,conv) full_cost on/off; every single operation + all sequences of 2 operations; training flag in {eval, train}',
+BOUNDS = {'quick': 'PIT: T1(K=2) and D2 (full_cost on/off); MPS: ML per-layer; SuperNet: S(2,conv) full_cost on/off; every single operation + all sequences of 2 operations; training flag in {eval, train}; PIT X1 with an excluded layer and full_cost',
           'thorough': 'PIT T2 / A1 / W1, MPS MD per-layer and per-channel, SuperNet S(3,mix) and 2 blocks; sequences of 3 operations'}
 OUTSIDE = ['train-mode forward arithmetic (flags, state, cost and summary are compared in train mode; outputs only in eval mode)', 'optimizer state', 'Gumbel sampling (random by design)']
 ASSUMPTIONS = ['SuperNet / MPS coefficients have been sampled by a forward pass before the snapshot (the "usual forward pass")']
